@@ -62,6 +62,11 @@ CHECKS = {
          "Held on every explored (multiset, aggregation set): 22 aggregation specs x 11 value multisets, all pairs and triples of aggregation kinds, buffer-boundary row counts (999/1000/1001), 1500 / 20000 random multisets with 1-3 aggregations.",
          "Trusted: the 150-line calculator in c19.go. Percentiles are checked for order and range only (t-digest is approximate); numeric text is not generated.",
          "5/C19"),
+ "C14": ("exploration",
+         "differential runtime monitor without a database: statement sequences are compiled by the Mongo compiler and by the core compiler and their accept/reject decision, result type and mark types compared; the $match document emitted for generated has-expressions (read through a verif-tagged hook) is evaluated by a MongoDB-semantics interpreter on scalar documents and compared with the core matcher",
+         "Held on every explored case: ~580000 (quick) statement sequences up to length 4 / 5 over a 68-instance alphabet agree on typing; 90+ operator x argument leaves with not / double not, pairs under and/or/not and 3000 / 60000 random trees of depth <= 3 select the same scalar documents as logic.MatchesHasExpression. Ordering comparisons with non-number operands (BSON type brackets) are a known finding and excluded.",
+         "Trusted base: the 250-line $match interpreter harness/model/mongomatch.go (no MongoDB in the sandbox). Hook H4 mongo/export_verif.go (build tag verif) only reads the compiled pipeline.",
+         "5/C14"),
 }
 
 NOT_YET = "check not built yet in this session (design in DESIGN.md section 5); claimed once the monitor exists and is silent on the unchanged tree"
